@@ -48,7 +48,7 @@ def run(out, info, tier, seed):
         'theorem premise static_ok (shape facts; the ancestors table dominates every trigger path) is checked per scenario by comparing the model-built tables with the implementation, not yet discharged by a closure theorem']
     out.assumptions = ['simulators are an oracle: any reply sequence (event list); delays that are compared have equal shape (convex group scenarios)']
     sched_check.sched_property(out, info, tier, seed, 'C05', KINDS, P_C05, gen_opts={'groups': True},
-                               case_gen=lambda rng, k: gen.gen_reentry_case(rng) if k % 4 == 3 else gen.gen_loop_case(rng) if k % 8 == 6 else gen.gen_case(rng, groups=True),
+                               case_gen=lambda rng, k: gen.gen_nested_case(rng) if k % 8 == 2 else gen.gen_reentry_case(rng) if k % 4 == 3 else gen.gen_loop_case(rng) if k % 8 == 6 else gen.gen_case(rng, groups=True),
                                ncases=(110, 1500), variants=[(True, True), (False, True), (True, False)], nontrivial=nontrivial, features=features,
                                known_match=known_match, hyp=None,
                                extra_obligations=[('Sched.Inv (invariant preserved by every event)', 'Sched/Inv'),
